@@ -150,9 +150,23 @@ func c09(r *hx.Run, onlyCrash bool) {
 			for k := f.width - 1; k >= 0; k-- {
 				exact = exact<<8 | uint64(b.raw[f.off+k])
 			}
-			for _, v := range boundaryVals(f.width, exact) {
+			vals := boundaryVals(f.width, exact)
+			// the length of what follows the field inside each enclosing container (whole input, signed data), +-: where a
+			// length check that forgets a prefix (the field's own width, a 2- or 6-byte header) stops covering the slice
+			sdEnd := 636 + int(binary.LittleEndian.Uint32(b.raw[632:]))
+			for _, end := range []int{len(b.raw), sdEnd} {
+				for d := -8; d <= 2; d++ {
+					if v := end - f.off + d; v >= 0 && uint64(v) < uint64(1)<<(8*f.width) {
+						vals = append(vals, uint64(v))
+					}
+				}
+			}
+			for vi, v := range vals {
 				p := leBytes(v, f.width)
 				parseCase(r, fmt.Sprintf("@r:%d:p%d.%x", b.id, f.off, p), patchBytes(b.raw, f.off, p), onlyCrash, "size-field")
+				if vi >= 7 {
+					continue
+				}
 				if i > 1 && !thorough {
 					continue
 				}
